@@ -42,7 +42,7 @@ def main():
             print(f'mutation matched {n} times, expected {count}')
             return 3
         open(f, 'w').write(s2)
-        env = dict(os.environ, VERIF_REPO=root, VERIF_EVIDENCE_DIR=os.path.join(root, '_evidence'))
+        env = dict(os.environ, VERIF_REPO=root, VERIF_EVIDENCE_DIR=os.path.join(root, '_evidence'), VERIF_REPLAY_DIR=os.path.join(root, '_replay'))
         if vtry:
             p = subprocess.run([sys.executable, os.path.join(VERIF, 'lib', 'vtry.py'), vtry, '30', '3'], env=env, capture_output=True, text=True)
         else:
